@@ -671,7 +671,9 @@ theorem csv_as_rows_given (num : String → Option Rat) (header body : List Stri
   fromCsv_given _ num header body a f d hgiven hlay hh hclean hrs hne hshape hint
 
 /-- **csv_as_rows (delimiter inferred).** The same when no delimiter is given and one of the candidates
-    tab / comma / semicolon / space separates the fields while the others do not occur in the rows. -/
+    tab / comma / semicolon / space separates the fields (same positive count on every row) and is the only
+    candidate with that property on the first 100 rows — another candidate may occur inside the fields
+    (`New York,Boston`), as long as it does not occur equally often in every row. -/
 theorem csv_as_rows_inferred (num : String → Option Rat) (header body : List String)
     (a : CsvArgs) (f : Flags) (k : Nat) (hk : k < 4)
     (hgiven : csvGiven a = none)
@@ -683,19 +685,20 @@ theorem csv_as_rows_inferred (num : String → Option Rat) (header body : List S
     (hne : body ≠ [])
     (hshape : (∀ s ∈ body, (splitAt (['\t', ',', ';', ' '].getD k ' ') s).length = 2) ∨
               (∀ s ∈ body, (splitAt (['\t', ',', ';', ' '].getD k ' ') s).length = 3))
-    (hothers : ∀ j, j < 4 → j ≠ k → ∀ row ∈ body, countChar (['\t', ',', ';', ' '].getD j ' ') row = 0)
+    (hunique : ∀ j, j < 4 → j ≠ k → consistentCol
+      ((body.take 100).map fun row => ['\t', ',', ';', ' '].map (fun d => countChar d row)) j = false)
     (hint : ∀ s ∈ body, ∀ r,
       (num ((splitAt (['\t', ',', ';', ' '].getD k ' ') s).getD 0 "") = some r → r.den = 1) ∧
       (num ((splitAt (['\t', ',', ';', ' '].getD k ' ') s).getD 1 "") = some r → r.den = 1)) :
     fromCsv num (header ++ body) a f
       = fromEdgeList (intOfNum num) (tuplesOf num (body.map (splitAt (['\t', ',', ';', ' '].getD k ' ')))) f :=
-  fromCsv_inferred _ num header body a f k hk hgiven hlay hh hclean hrs hne hshape hothers hint
+  fromCsv_inferred _ num header body a f k hk hgiven hlay hh hclean hrs hne hshape hunique hint
 
 /-- a concrete file meeting the hypotheses: one comment line, two rows `a,b,2` / `b,c,0.5` -/
 example : CleanFile ',' (lastComment '#' ["# two edges"]) ['#', '%'] ["# two edges"] ["a,b,2", "b,c,0.5"] ∧
     (∀ s ∈ ["a,b,2", "b,c,0.5"], rstrip s = s) ∧ (∀ s ∈ ["a,b,2", "b,c,0.5"], (splitAt ',' s).length = 3) ∧
     isCommentLine ['#', '%'] "# two edges" = true := by
-  refine ⟨⟨?_, ?_, ?_, ?_, ?_⟩, ?_, ?_, ?_⟩ <;> decide +kernel
+  refine ⟨⟨?_, ?_, ?_, ?_, ?_, ?_⟩, ?_, ?_, ?_⟩ <;> decide +kernel
 
 /-- **the inferred delimiter splits every scanned row consistently**: when `scan_header` picks candidate `k`
     because it passes the test `mean > 0 and std == 0`, that character occurs the same number `c ≥ 1` of times
@@ -707,10 +710,12 @@ theorem inferred_delimiter_consistent (delims : List Char) (body : List String) 
   equal_counts_of_consistent delims body k hk h
 
 /-- what `scan_header` returns on comment lines followed by at most `n_scan` data rows: the number of comment
-    lines, the first character of the last one, the chosen candidate, and the layout read off the rows. -/
+    lines, the first character of the last one, the chosen candidate, and the layout read off the rows
+    (blank lines are not data rows: excluded here by `hnb`). -/
 theorem scan_header_clean (delims comments : List Char) (nScan : Nat) (header body : List String)
     (hh : ∀ s ∈ header, isCommentLine comments s = true)
     (hb : ∀ s ∈ body, isCommentLine comments s = false)
+    (hnb : ∀ s ∈ body, strip s ≠ "")
     (hn : body.length ≤ nScan) :
     (scanHeader (header ++ body) delims comments nScan).headerLength = header.length ∧
     (scanHeader (header ++ body) delims comments nScan).comment = lastComment (comments.headD '#') header ∧
@@ -718,7 +723,7 @@ theorem scan_header_clean (delims comments : List Char) (nScan : Nat) (header bo
       = delims.getD (chooseDelimiter delims.length (body.map fun row => delims.map (fun d => countChar d row))) ' ' ∧
     (scanHeader (header ++ body) delims comments nScan).layout
       = layoutOf (scanHeader (header ++ body) delims comments nScan).delimiter (body.map rstrip) :=
-  scanHeader_clean delims comments nScan header body hh hb hn
+  scanHeader_clean delims comments nScan header body hh hb hnb hn
 
 /-! ## graphml_preserves -/
 
